@@ -4,7 +4,7 @@
    Over the reals, for every number of variables, every n_dimensions d >= 1, every array with entries in
    [0,1] and every bound vectors lb <= ub of any sign and magnitude (lb = ub allowed).  IEEE rounding is
    not modelled (see notes/C13.md: the one-ulp excess of span(ones) in binary64 is a recorded finding). *)
-From Coq Require Import Reals List ZArith Bool Lra.
+From Coq Require Import Reals List ZArith Bool Lra Floats.
 From OV Require Import Base.RExprC10 Base.FloatKey Model.Clip Model.SpaceInit Model.SpanProofs Model.HyperBox Gen.Span Gen.ClipLoops.
 Import ListNotations.
 Open Scope R_scope.
@@ -76,6 +76,22 @@ Theorem C13_hyper_init_unit_box : forall nv nd draws, (nv <= length draws)%nat -
                           (zero_agent nv nd) draws) in
   unit_box (a_pos a) = true /\ length (a_pos a) = nv.
 Proof. intros nv nd draws. apply unit_init_in_unit_box. reflexivity. Qed.
+
+(* ---- binary64.  Coq's primitive floats are IEEE-754 binary64 with round-to-nearest-even, the arithmetic NumPy uses.
+   The end-point and range claims do NOT survive rounding on the unchanged code (known findings
+   span:ones-row:excess<=2ulp and span:range-overflow, see known_findings.d/C13.json).  Full statements that fail:
+     forall lb ub, lb <= ub -> span_b64 lb ub 1 = ub
+     forall lb ub t, lb <= ub -> 0 <= t <= 1 -> lb <= span_b64 lb ub t <= ub
+   [span_b64] is the float reading of the regenerated map (ub - lb) * t + lb with t = norm / sqrt(d). *)
+Definition span_b64 (lb ub t : float) : float := ((ub - lb) * t + lb)%float.
+
+Theorem C13_span_one_binary64_refuted :
+  exists lb ub : float, (lb <=? ub)%float = true /\ (ub <? span_b64 lb ub 1)%float = true.
+Proof. exists (-0x1.199999999999ap+0)%float, (0x1.3333333333333p-2)%float. split; reflexivity. Qed.   (* lb = -1.1, ub = 0.3 *)
+
+Theorem C13_span_range_binary64_overflow_refuted :
+  exists lb ub : float, (lb <=? ub)%float = true /\ PrimFloat.is_nan (span_b64 lb ub 0) = true /\ (ub <? span_b64 lb ub 0.5)%float = true.
+Proof. exists (-0x1.ab36d48e1acf0p+1023)%float, (0x1.ab36d48e1acf0p+1023)%float. repeat split; reflexivity. Qed.   (* -+1.5e308 *)
 
 (* ---- non-vacuity: 2 variables x 3 dimensions, a negative and a degenerate range *)
 Example C13_nonvacuous :
